@@ -48,3 +48,18 @@ Example condition_part_example :
   let s := [77;117;115;115;32;91;49;93;32;85]%N in   (* "Muss [1] U" *)
   parse_ahb s = Ok [RP (TokMM [77;117;115;115]%N) (Some [32;91;49;93;32;85]%N)] /\ resolve_str s = Exn SyntaxErr.
 Proof. split; vm_compute; reflexivity. Qed.
+
+(* is_valid_expression on strings: malformed input is REPORTED, as (False, message); it never escapes as an exception *)
+From Ahb Require Import Model.ValidStr.
+Lemma validity_reports_malformed message_of on_tree s :
+  resolve_str s = Exn SyntaxErr -> is_valid_str message_of on_tree s = Ok (false, Some (message_of s)).
+Proof. unfold is_valid_str. intros ->. reflexivity. Qed.
+
+Lemma validity_of_any_string message_of on_tree s :
+  (exists r, resolve_str s = Ok r /\ is_valid_str message_of on_tree s = on_tree r) \/
+  is_valid_str message_of on_tree s = Ok (false, Some (message_of s)).
+Proof.
+  destruct (resolve_only_syntaxerror s) as [[r H]|H].
+  - left. exists r. split; [exact H|]. unfold is_valid_str. rewrite H. reflexivity.
+  - right. now apply validity_reports_malformed.
+Qed.
